@@ -3,7 +3,7 @@ import corebase as B
 from corebase import CHECK_MODS, CASE_TYPE, CORR, run_impl, encode, shrink  # noqa: F401
 
 PROP = 'C01'
-PROPCHK = 'C01_prop'
+PROPCHK = 'C01_prop_strict'
 RELAX = [('F-C01-row-switch', 'C01_prop_switch')]
 RELAX_ALL = 'C01_prop_switch'
 THEOREMS = ['C01_newest_version_equals_live_row', 'C01_flush_step', 'C01_rows_only_for_tracked_changes', 'C01_example']
@@ -34,6 +34,10 @@ def corpus():
         dict(cfg=inh, prog=[['add', 0, 1, {'a': 1}], ['add', 2, 2, {'a': 1, 'tracks': 1}], ['commit'], ['set', 0, 1, {'a': 2}],
                             ['flush'], ['set', 2, 2, {'tracks': 5}], ['commit'], ['set', 0, 1, {'a': 3}],
                             ['set', 2, 2, {'tracks': None}], ['commit']]),
+        # an inherited attribute of an expired subclass instance assigned the value it has (also NULL to NULL): no version
+        dict(cfg=inh, prog=[['add', 1, 1, {'a': 1, 'pages': 1}], ['add', 2, 2, {'a': None, 'tracks': 1}], ['commit'],
+                            ['set', 1, 1, {'a': 1}], ['commit'], ['set', 2, 2, {'a': None}], ['commit'],
+                            ['set', 1, 1, {'a': 1}], ['set', 1, 1, {'pages': 2}], ['commit']]),
         dict(cfg=dict(inh, strategy='subquery'),
              prog=[['add', 0, 1, {'a': 1}], ['add', 2, 2, {'a': 1, 'tracks': 1}], ['commit'], ['set', 0, 1, {'a': 2}],
                    ['flush'], ['set', 2, 2, {'tracks': 5}], ['commit']]),
